@@ -129,27 +129,7 @@ def run(ctx):
     roots = [b.id for b in prog.find_bodies(r"^<resources::TextResource as text::Text<'store, 'store>>::(utf8byte|utf8byte_to_charpos)$")]
     total_rule(ctx, r_err, prog, roots, load_safe("C12"), 2, 2)
 
-    # ---------------- DIV
-    r_div = ctx.rule("C12.DIV", "create_milestones (charpos % interval) is reached only under milestone_interval > 0")
-    cm = prog.one(r"^resources::TextResource::create_milestones$")
-    sites = prog.call_sites_of(cm.id)
-    for cb, bi, t in sites:
-        k = "%s" % cb.id
-        r_div.hit(k)
-        arg = cb.key_of_operand(t["args"][1]) if len(t.get("args", [])) > 1 else "?"
-        facts_ = panics.cmp_facts(cb)
-        ok = False
-        for pol, f in panics.holds_at(cb, bi, facts_):
-            if len(f) == 3:
-                op, x, y = f
-                if not pol:
-                    op = {"Lt": "Ge", "Le": "Gt", "Gt": "Le", "Ge": "Lt", "Eq": "Ne", "Ne": "Eq"}[op]
-                if (op == "Gt" and y == "const:0" and panics.norm_key(x) == panics.norm_key(arg)) or (op == "Lt" and x == "const:0" and panics.norm_key(y) == panics.norm_key(arg)) or \
-                   (op == "Ne" and y == "const:0" and panics.norm_key(x) == panics.norm_key(arg)):
-                    ok = True
-        if not ok:
-            ctx.report(r_div, k, "%s calls create_milestones(%s) without a dominating `%s > 0` test: interval 0 divides by zero" % (cb.id, arg, arg), cb.file, t.get("line"))
-    ctx.floor(r_div, len(sites), 3, "call sites of create_milestones")
+    div_rule(ctx, prog)
 
     # ---------------- KNOB
     r_knob = ctx.rule("C12.KNOB", "Config.milestone_interval is read only by its accessors and by the code that decides whether to place milestones")
@@ -450,3 +430,27 @@ def delegate_rule(ctx, prog):
         if bypass:
             ctx.report(r, "%s|%s" % (m.group(1), name), "%s of %s can return without going through TextResource::%s: its answers (in particular the error for a position outside the text) are no longer those of the checked conversion" % (name, m.group(1), name), b.file, b.line)
     ctx.floor(r, n, 6, "wrapper conversions")
+
+
+def div_rule(ctx, prog, rid="C12.DIV"):
+    r_div = ctx.rule(rid, "create_milestones (charpos % interval) is reached only under milestone_interval > 0")
+    cm = prog.one(r"^resources::TextResource::create_milestones$")
+    sites = prog.call_sites_of(cm.id)
+    for cb, bi, t in sites:
+        k = "%s" % cb.id
+        r_div.hit(k)
+        arg = cb.key_of_operand(t["args"][1]) if len(t.get("args", [])) > 1 else "?"
+        facts_ = panics.cmp_facts(cb)
+        ok = False
+        for pol, f in panics.holds_at(cb, bi, facts_):
+            if len(f) == 3:
+                op, x, y = f
+                if not pol:
+                    op = {"Lt": "Ge", "Le": "Gt", "Gt": "Le", "Ge": "Lt", "Eq": "Ne", "Ne": "Eq"}[op]
+                if (op == "Gt" and y == "const:0" and panics.norm_key(x) == panics.norm_key(arg)) or (op == "Lt" and x == "const:0" and panics.norm_key(y) == panics.norm_key(arg)) or \
+                   (op == "Ne" and y == "const:0" and panics.norm_key(x) == panics.norm_key(arg)):
+                    ok = True
+        if not ok:
+            ctx.report(r_div, k, "%s calls create_milestones(%s) without a dominating `%s > 0` test: interval 0 divides by zero" % (cb.id, arg, arg), cb.file, t.get("line"))
+    ctx.floor(r_div, len(sites), 3, "call sites of create_milestones")
+
